@@ -631,7 +631,7 @@ impl Value {
             _ => return Err(Error::ExpressionUnexpectedType(ty.clone())),
         };
         let s = hexadecimal.as_inner();
-        if s.len() % 2 != 0 || s.len() != expected_byte_len * 2 {
+        if s.len() % 2 != 0 || s.len() / 2 != expected_byte_len {
             return Err(Error::ExpressionUnexpectedType(ty.clone()));
         }
         let bytes = Vec::<u8>::from_hex(s).expect("valid chars and valid length");
